@@ -332,29 +332,57 @@ def convertCoinNativeERC20 (B : Addr → Behaviour σ) (w : World σ) (pair : Pa
           | _, _ => .panic "nil balance"
       | _, _ => .panic "nil balance"
 
-/-! ### messages -/
+/-! ### messages: stateless validation (stage 1) and the handlers' own parsing (stage 2) -/
+
+/-- What a prefix-agnostic bech32 decode of an address string yields (external primitive: computed by the harness
+with its own decoder): human readable part and payload (lower-case hex). -/
+structure Bech32 where
+  hrp : String
+  bytes : Addr
+  deriving Repr, DecidableEq
+
+/-- `Bech32PrefixAccAddr` (cmd/config/config.go) -/
+def chainPrefix : String := "teleport"
+
+/-- `sdk.AccAddressFromBech32`: decodable, the CHAIN's prefix, 1 … 255 bytes (`VerifyAddressFormat`). -/
+def accAddressFromBech32 (r : Option Bech32) : Option Addr :=
+  match r with
+  | none => none
+  | some b => if b.hrp = chainPrefix ∧ 0 < b.bytes.length ∧ b.bytes.length ≤ 510 then some b.bytes else none
+
 
 /-- `MsgConvertCoin`. `sender = none`: not a valid bech32 address. `receiver` is the raw string of the message. -/
 structure MsgCoin where
   denom : Denom
   amount : Int
   receiver : String
-  sender : Option Addr
+  sender : Option Bech32
 
-/-- `MsgConvertERC20`. `receiver = none`: invalid bech32. -/
+/-- `MsgConvertERC20`. `receiver`: what a prefix-agnostic bech32 decode of the string yields. -/
 structure MsgERC20 where
   contract : String
   amount : Int
-  receiver : Option Addr
+  receiver : Option Bech32
   sender : String
   denom : Denom
 
+/-- the account a `MsgConvertCoin` is signed by / pays from, as `sdk.AccAddressFromBech32` reads it -/
+def MsgCoin.senderAddr (m : MsgCoin) : Option Addr := accAddressFromBech32 m.sender
+/-- the account a `MsgConvertERC20` pays out to, as `sdk.AccAddressFromBech32` reads it -/
+def MsgERC20.receiverAddr (m : MsgERC20) : Option Addr := accAddressFromBech32 m.receiver
+
+/-- stage 1 of a delivered transaction: `MsgConvertCoin.ValidateBasic` (x/aggregate/types/msg.go) -/
 def MsgCoin.validateBasic (m : MsgCoin) : Bool :=
-  (validAggregateDenom m.denom || validIBCDenom m.denom) && decide (0 < m.amount) && m.sender.isSome &&
+  (validAggregateDenom m.denom || validIBCDenom m.denom) && decide (0 < m.amount) && m.senderAddr.isSome &&
   isHexAddress m.receiver
 
+/-- stage 1: `MsgConvertERC20.ValidateBasic`; the receiver must be bech32 **of the chain's prefix**. -/
 def MsgERC20.validateBasic (m : MsgERC20) : Bool :=
-  isHexAddress m.contract && decide (0 < m.amount) && m.receiver.isSome && isHexAddress m.sender
+  isHexAddress m.contract && decide (0 < m.amount) && m.receiverAddr.isSome && isHexAddress m.sender
+
+/-- stage 2, the handlers' own parse `addr, _ := sdk.AccAddressFromBech32(s)`: the error is dropped
+("Error checked during msg validation"), a string the parse rejects becomes the EMPTY address. -/
+def handlerAddr (r : Option Bech32) : Addr := (accAddressFromBech32 r).getD ""
 
 /-- What happened to a delivered message. -/
 inductive Res where
@@ -402,19 +430,16 @@ def finish (w : World σ) : Outcome (World σ × Bool) → World σ × Res
   | .err e => (w, .rejected e)
   | .panic _ => (w, .panicked)
 
-/-- A delivered `MsgConvertCoin`: `ValidateBasic`, the handler, and baseapp's all-or-nothing write. -/
+/-- A delivered `MsgConvertCoin`: `ValidateBasic`, then the handler (with its own parse of the sender), and baseapp's
+all-or-nothing write. -/
 def deliverCoin (B : Addr → Behaviour σ) (w : World σ) (m : MsgCoin) : World σ × Res :=
   if !m.validateBasic then (w, .rejected "basic")
-  else match m.sender with
-    | none => (w, .rejected "basic")
-    | some s => finish w (handleCoin B w m.denom m.amount.toNat (hexToAddr m.receiver) s)
+  else finish w (handleCoin B w m.denom m.amount.toNat (hexToAddr m.receiver) (handlerAddr m.sender))
 
 /-- A delivered `MsgConvertERC20`. -/
 def deliverERC20 (B : Addr → Behaviour σ) (w : World σ) (m : MsgERC20) : World σ × Res :=
   if !m.validateBasic then (w, .rejected "basic")
-  else match m.receiver with
-    | none => (w, .rejected "basic")
-    | some r => finish w (handleERC20 B w m.contract m.denom m.amount.toNat r (hexToAddr m.sender))
+  else finish w (handleERC20 B w m.contract m.denom m.amount.toNat (handlerAddr m.receiver) (hexToAddr m.sender))
 
 /-! ### the ICS-20 receive hook (x/aggregate/ibc_middleware.go, keeper/ibc_hook.go)
 
